@@ -28,6 +28,8 @@ class Interp:
             return self.is_tracked(e['base'], env) and e['name'] == '0' and self.enum in e['ty']
         if k == 'mcall' and e['name'] in ('as_ref', 'clone', 'borrow', 'deref'):
             return self.is_tracked(e['recv'], env)
+        if k == 'call' and env.get('__tracked_call__') is not None and e is env['__tracked_call__']:
+            return True
         return False
 
     def pat_matches(self, pat, v):
